@@ -74,7 +74,24 @@ func init() {
 				"<range>.OnTransformToClosed":   {Tag: brkNotifyClosed, Keep: []int{0}},
 				"entry.WhenExit":                {Tag: brkHookExit}}}
 	}
+	sumStep := func(typ, name, ctr, badField string) target {
+		return target{Dir: "core/circuitbreaker", Func: typ + ".OnRequestComplete", Name: name, LoopBody: 1,
+			RangeVars: map[string]string{"c": "*" + ctr},
+			Hints: map[string]hint{
+				"b.stat":                                 {"", "opaque"},
+				"metricStat.currentCounter()":            {"cur", "opaque"},
+				"metricStat.allCounter()":                {"", "opaque"},
+				"atomic.LoadUint64(&c." + badField + ")": {"c_bad", "uint64"},
+				"atomic.LoadUint64(&c.totalCount)":       {"c_total", "uint64"}},
+			Acts: map[string]act{
+				"atomic.AddUint64(&counter." + badField + ", 1)": {Tag: brkAddBad},
+				"atomic.AddUint64(&counter.totalCount, 1)":       {Tag: brkAddTotal}}}
+	}
 	targets = append(targets,
+		// one iteration of the window-sum loop of OnRequestComplete (uint64 accumulation)
+		sumStep("slowRtCircuitBreaker", "cb_slow_sum_step", "slowRequestCounter", "slowCount"),
+		sumStep("errorRatioCircuitBreaker", "cb_errRatio_sum_step", "errorCounter", "errorCount"),
+		sumStep("errorCountCircuitBreaker", "cb_errCount_sum_step", "errorCounter", "errorCount"),
 		// retryTimeoutArrived: now >= deadline (both uint64)
 		target{Dir: "core/circuitbreaker", Func: "circuitBreakerBase.retryTimeoutArrived", Name: "cb_retryTimeoutArrived",
 			Hints: map[string]hint{
